@@ -224,13 +224,19 @@ fn check_v6_bundle_version(bundle_version: BundleVersion) -> io::Result<()> {
 /// unlike the Orchard v6 pool). The slot's [`BundleVersion`] is derived from
 /// `consensus_branch_id` (see [`bundle_version_for_branch`]); a non-empty bundle in a
 /// slot whose value pool is not supported under the transaction's consensus branch is
-/// rejected as invalid data.
+/// rejected as invalid data. This includes a non-empty Orchard-slot bundle under a
+/// consensus branch that predates NU6.3: its [`BundleVersion`] is not valid for the v6
+/// format (see [`write_v6_bundle`]), so the parsed bundle could not be serialized again.
 pub fn read_v6_bundle<R: Read>(
     reader: R,
     consensus_branch_id: BranchId,
     pool: ValuePool,
 ) -> io::Result<Option<orchard::Bundle<Authorized, ZatBalance>>> {
-    read_bundle(reader, bundle_version_for_branch(consensus_branch_id, pool))
+    read_bundle(
+        reader,
+        bundle_version_for_branch(consensus_branch_id, pool)
+            .filter(|bundle_version| check_v6_bundle_version(*bundle_version).is_ok()),
+    )
 }
 
 pub fn read_value_commitment<R: Read>(mut reader: R) -> io::Result<ValueCommitment> {
